@@ -24,6 +24,7 @@ type variant struct {
 	mapShape     int  // 0 normal, 1 value-then-key, 2 omit zero key, 3 omit zero value, 4 duplicate key (first with other value)
 	explicitZero bool // implicit-presence fields holding zero are written explicitly
 	unknown      bool // unknown fields interleaved at every level
+	padded       bool // unknown fields use over-long (non-minimal but valid) varints for key, length prefix and varint value
 }
 
 var variantFamilies = []variant{
@@ -43,6 +44,7 @@ var variantFamilies = []variant{
 	{family: "explicitzero", explicitZero: true},
 	{family: "unknown", unknown: true},
 	{family: "unknown+shuffled", unknown: true, order: 2},
+	{family: "unknown-padded", unknown: true, padded: true},
 }
 
 type venc struct {
@@ -416,6 +418,28 @@ func (e *venc) unknownField(md protoreflect.MessageDescriptor) []byte {
 	}
 	wt := []int{refwire.WTVarint, refwire.WTFixed64, refwire.WTLen, refwire.WTFixed32}[e.r.Intn(4)]
 	b := refwire.AppendKey(nil, num, wt)
+	if e.v.padded {
+		// every varint of the field may carry redundant continuation bytes: 0x98 0x01 == 0x98 0x81 0x00
+		b = padVarint(b, 1+e.r.Intn(2))
+		switch wt {
+		case refwire.WTVarint:
+			v := refwire.AppendVarint(nil, e.r.Uint64()>>uint(8+e.r.Intn(56)))
+			if e.r.Bool() {
+				v = padVarint(v, 1+e.r.Intn(2))
+			}
+			return append(b, v...)
+		case refwire.WTLen:
+			n := e.r.Intn(12)
+			if e.r.Chance(1, 5) {
+				n = 0
+			}
+			l := refwire.AppendVarint(nil, uint64(n))
+			if e.r.Bool() {
+				l = padVarint(l, 1+e.r.Intn(2))
+			}
+			return append(append(b, l...), e.r.Bytes(n)...)
+		}
+	}
 	switch wt {
 	case refwire.WTVarint:
 		return refwire.AppendVarint(b, e.r.Uint64()>>uint(e.r.Intn(64)))
@@ -432,4 +456,13 @@ func (e *venc) unknownField(md protoreflect.MessageDescriptor) []byte {
 		n = 0
 	}
 	return refwire.AppendLen(b, e.r.Bytes(n))
+}
+
+// padVarint appends extra redundant bytes to the varint that ends b (which must be shorter than 10-extra bytes).
+func padVarint(b []byte, extra int) []byte {
+	b[len(b)-1] |= 0x80
+	for i := 1; i < extra; i++ {
+		b = append(b, 0x80)
+	}
+	return append(b, 0x00)
 }
